@@ -58,4 +58,22 @@ PROPS = {
     },
 }
 
+PROPS["C19"] = {
+    "lean": ["PP.Props.C19"],
+    "what": "Argument augmentation: decode_encode (for every list of typed values within their ranges - bool, sized/unsized ints, uintptr/byte/rune, float32/64 bit patterns, strings, slices, pointers, maps, channels, funcs - decoding the words the runtime prints under -N -l with the parameter type names gives the spec rendering of the values), twos_round_trip, mismatch_harmless / augmentCall_total (every type list, arity and argument tree: total, never out of fuel, the only error is Go's own index panic for an empty type list with ellipsis, which extractArgumentsType never produces), cursor_linear (each word consumed at most once), processed_length_le, uint8_untruncated; harness: function-level correspondence on typed and hostile cases, end to end on generated programs compiled with -gcflags '-N -l', crashed and parsed with the sources in place (literal values as ground truth; raw values unchanged), and 11 kinds of mismatching source trees (no panic, nothing but Processed differs).",
+    "partial": "that the installed compiler and runtime really encode arguments as Spec.encode says is validated on generated programs, not proved; go/parser, getFuncAST and extractArgumentsType are exercised, not modelled (the type list is an input of the model); strconv.FormatFloat is a parameter.",
+    "trusted": ["go/parser + the AST walk (type list is an input)", "strconv.FormatFloat", "the compiler's argument layout under -N -l (validated end to end)"],
+}
+
+# Harness-only entries: checks that run (bin/seedtest, development) but are not
+# claimed in MANIFEST.json until their theorems exist.
+EXTRA = {
+    "C01": {"lean": ["PP.Tie.Scan", "PP.Tie.Reader"], "what": "harness only"},
+    "C07": {"lean": ["PP.Tie.Scan"], "what": "harness only"},
+    "C08": {"lean": ["PP.Tie.Scan"], "what": "harness only"},
+    "C10": {"lean": ["PP.Tie.Scan", "PP.Tie.Reader"], "what": "harness only"},
+    "C11": {"lean": ["PP.Tie.Reader"], "what": "harness only"},
+    "C14": {"lean": ["PP.Tie.Globals"], "what": "harness only"},
+}
+
 NOT_CLAIMED = {}
